@@ -764,7 +764,7 @@ pub fn gop() -> BoxedStrategy<GOp> {
         3 => (f(), fq_input(), mode_any()).prop_map(|(dst, val, mode)| GOp::AllocFq { dst, val, mode }),
         3 => (e(), e(), mode_any(), via()).prop_map(|(dst, a, mode, via)| GOp::Realloc { dst, a, mode, via }),
         3 => (e(), fq_input(), mode_nc()).prop_map(|(dst, val, mode)| GOp::AllocLazy { dst, val, mode }),
-        1 => e().prop_map(|a| GOp::IsZero { a }),
+        2 => e().prop_map(|a| GOp::IsZero { a }),
         3 => (f(), e()).prop_map(|(dst, e)| GOp::Compress { dst, e }),
         3 => (e(), f()).prop_map(|(dst, f)| GOp::Decompress { dst, f }),
         2 => (e(), f()).prop_map(|(dst, f)| GOp::Elligator { dst, f }),
